@@ -1,4 +1,5 @@
 import Casket.Proofs.ProxyMsg
+import Casket.Proofs.ProxyMsgPath
 import Casket.Generated.ProxyHeaders
 /-
 C04 — Reverse proxy relays requests and responses faithfully.
@@ -159,6 +160,99 @@ theorem C04_rawpath_exact (hl : List Str) (repl : Str → Str) (u : Upstream) (r
     (forward hl repl u r).url.rawPath = expectRawPath u.target u.without r.url :=
   director_rawPath _ _ _
 
+/-- `Spec.jointAgree` as a proposition: a slash at the joint is spelled the same way (literally) in
+the encoded and in the decoded forms. -/
+def JointAgree (u : Upstream) (r : Request) : Prop :=
+  endsWithSlash (escapedOf u.target.path u.target.rawPath) = endsWithSlash u.target.path ∧
+  startsWithSlash (escapedOf (trimmedPath u r) (trimmedRaw u r)) = startsWithSlash (trimmedPath u r) ∧
+  (escapedOf (trimmedPath u r) (trimmedRaw u r) = [] ↔ trimmedPath u r = [])
+
+theorem beq_nil_iff (X Y : Str) : (X == []) = (Y == []) ↔ (X = [] ↔ Y = []) := by
+  cases X <;> cases Y <;> simp
+
+theorem jointAgree_iff (u : Upstream) (r : Request) : jointAgree u r = true ↔ JointAgree u r := by
+  unfold jointAgree JointAgree
+  simp only [Bool.and_eq_true, beq_iff_eq]
+  rw [beq_nil_iff]
+  constructor
+  · rintro ⟨⟨h1, h2⟩, h3⟩; exact ⟨h1, h2, h3⟩
+  · rintro ⟨h1, h2, h3⟩; exact ⟨⟨h1, h2⟩, h3⟩
+
+/-- Whenever the outgoing RawPath is set it decodes to the outgoing Path — the backend is sent one
+consistent path — for every base path (with or without an encoded form, with characters that need
+escaping), every `without` (also one that matches only the decoded or only the encoded spelling of
+the request path) and every request path.  PARTIAL: an escaped slash exactly at the joint is
+excluded (`JointAgree`); see the witness below (known finding C04-rawpath-escaped-slash-at-joint,
+judged as its own class `rawpath-joint-escaped-slash`; any other inconsistency is `rawpath-inconsistent`). -/
+theorem C04_rawpath_consistent_partial (hl : List Str) (repl : Str → Str) (u : Upstream) (r : Request)
+    (hj : JointAgree u r) (hset : (forward hl repl u r).url.rawPath ≠ []) :
+    Casket.Path.unescape false (forward hl repl u r).url.rawPath = some (forward hl repl u r).url.path := by
+  rw [forward_url] at hset ⊢
+  have hp : (director u.target u.without r.url).path =
+      singleJoiningSlash u.target.path (trimmedPath u r) := by
+    unfold director trimmedPath
+    by_cases hw : u.without = []
+    · simp [hw, trimPrefix_nil]
+    · have : (u.without != []) = true := by simp [hw]
+      simp [this]
+  have hr : (director u.target u.without r.url).rawPath =
+      if trimmedRaw u r != [] || u.target.rawPath != [] then
+        singleJoiningSlash (escapedOf u.target.path u.target.rawPath) (escapedOf (trimmedPath u r) (trimmedRaw u r))
+      else trimmedRaw u r := by
+    unfold director trimmedPath trimmedRaw
+    by_cases hw : u.without = []
+    · by_cases hr0 : r.url.rawPath = [] <;> simp [hw, hr0, trimPrefix_nil]
+    · have hw' : (u.without != []) = true := by simp [hw]
+      by_cases hr0 : r.url.rawPath = []
+      · simp [hw', hr0]
+      · have : (r.url.rawPath != []) = true := by simp [hr0]
+        simp [hw', this]
+  rw [hr] at hset ⊢
+  rw [hp]
+  by_cases hc : (trimmedRaw u r != [] || u.target.rawPath != []) = true
+  · simp only [hc, if_true]
+    exact unescape_join _ _ _ _ (escapedOf_unescape _ _) (escapedOf_unescape _ _) hj.1 hj.2.1 hj.2.2
+  · simp only [hc, Bool.false_eq_true, if_false] at hset
+    have : trimmedRaw u r = [] := by
+      simp only [Bool.or_eq_true, not_or, bne_iff_ne, ne_eq, Decidable.not_not] at hc
+      exact hc.1
+    exact absurd this hset
+
+/-- The excluded case does fail: `without /api` and the request `/api%2Fx` (decoded `/api/x`): the
+slash after the prefix is an escaped one, the encoded join gets a slash of its own, and the encoded
+path (`/%2Fx`, i.e. `//x`) no longer decodes to the path (`/x`). -/
+theorem C04_rawpath_joint_fails_witness :
+    let u : Upstream := { target := { scheme := sHttp, host := [98], path := [], rawPath := [], opaq := [], rawQuery := [] },
+                          without := [47, 97, 112, 105], upRules := [], downRules := [] }
+    let r : Request := { method := [71], url := { scheme := [], host := [], path := [47, 97, 112, 105, 47, 120],
+                                                  rawPath := [47, 97, 112, 105, 37, 50, 70, 120], opaq := [], rawQuery := [] },
+                         host := [], remoteAddr := [], header := [], contentLength := 0, body := none }
+    (forward [] id u r).url.path = [47, 120] ∧
+    (forward [] id u r).url.rawPath = [47, 37, 50, 70, 120] ∧
+    Casket.Path.unescape false (forward [] id u r).url.rawPath = some [47, 47, 120] := by
+  decide
+
+/-- What the backend decodes is the outgoing Path in every case: `URL.EscapedPath()` — what
+net/http writes on the request line — falls back to the escaped Path when RawPath is not an
+encoding of it, so the path of `C04_path_exact` is the one that arrives, whatever the spelling. -/
+theorem C04_backend_path_consistent (hl : List Str) (repl : Str → Str) (u : Upstream) (r : Request) :
+    Casket.Path.unescape false
+      (escapedOf (forward hl repl u r).url.path (forward hl repl u r).url.rawPath) =
+      some (forward hl repl u r).url.path :=
+  escapedOf_unescape _ _
+
+/-- The judged raw-path predicate on the model's own answer (same exclusion as above). -/
+theorem C04_rawpath_model_verdict_ok_partial (hl : List Str) (repl : Str → Str) (u : Upstream) (r : Request)
+    (hj : JointAgree u r) : verdictRawPath u r (forward hl repl u r) = "ok" := by
+  have hok : rawOK (forward hl repl u r).url.path (forward hl repl u r).url.rawPath = true := by
+    unfold rawOK
+    by_cases hset : (forward hl repl u r).url.rawPath = []
+    · simp [hset]
+    · have := C04_rawpath_consistent_partial hl repl u r hj hset
+      simp [this]
+  unfold verdictRawPath
+  simp [hok]
+
 /-- The query is the target's query and the request's query, joined by `&` when both exist. -/
 theorem C04_query_preserved (hl : List Str) (repl : Str → Str) (u : Upstream) (r : Request) :
     (forward hl repl u r).url.rawQuery = expectQuery u.target r.url.rawQuery :=
@@ -185,6 +279,54 @@ theorem C04_method_body_untouched (hl : List Str) (repl : Str → Str) (u : Upst
     rw [this]; rfl
   · have : (r.contentLength == 0) = false := by simp [h0]
     simp [this]
+
+/-- net/http hands a handler a body that is exactly as long as the declared Content-Length. -/
+def BodyFramed (r : Request) : Prop := r.contentLength ≥ 0 → ((bodyBytes r.body).length : Int) = r.contentLength
+
+/-- Whether the body is buffered for retries (`requiresBuffering`) or streamed makes no difference to
+what the transport is handed, and either is what `forward` hands it. -/
+theorem C04_buffering_transparent (hl : List Str) (repl : Str → Str) (u : Upstream) (r : Request) (b : Bool) :
+    outgoingBody b r = (forward hl repl u r).body := by
+  rw [forward_body]
+  unfold outgoingBody
+  cases b <;> cases r.body <;> simp
+
+/-- The backend receives exactly the client's body bytes in a framing that is consistent with them:
+a Content-Length equal to their number, or chunked coding (exactly when the client's length was
+unknown), or no body when there are none — for every incoming framing (declared length, unknown length, no body). -/
+theorem C04_framing_self_consistent (hl : List Str) (repl : Str → Str) (u : Upstream) (r : Request)
+    (hf : BodyFramed r) :
+    bodyBytes (forward hl repl u r).body = bodyBytes r.body ∧
+    (match wireFraming (forward hl repl u r) with
+     | .length n => n = (bodyBytes r.body).length
+     | .chunked => r.contentLength < 0
+     | .none => bodyBytes r.body = []) := by
+  have hb : BodyConsistent r := by
+    intro h0
+    have := hf (by omega)
+    rw [h0] at this
+    exact List.eq_nil_of_length_eq_zero (by omega)
+  refine ⟨(C04_method_body_untouched hl repl u r hb).2.2, ?_⟩
+  unfold wireFraming
+  rw [forward_body, forward_contentLength]
+  by_cases h0 : r.contentLength = 0
+  · simp only [h0, beq_self_eq_true, if_true]
+    exact hb h0
+  · have hne : (r.contentLength == 0) = false := by simp [h0]
+    simp only [hne, Bool.false_eq_true, if_false]
+    cases hbody : r.body with
+    | none =>
+      simp only [bodyBytes]
+    | some bs =>
+      simp only [bodyBytes]
+      by_cases hpos : r.contentLength > 0
+      · simp only [hpos, if_true]
+        have := hf (by omega)
+        rw [hbody] at this
+        simp only [bodyBytes] at this
+        omega
+      · have hneg : r.contentLength < 0 := by omega
+        simp only [hpos, if_false, hneg, if_true]
 
 /-- The whole judged request-side predicate: the model's answer always gets the verdict "ok".
 (The same `verdictReq` is applied by the driver to the implementation's answers.) -/
@@ -472,6 +614,20 @@ example :
     v.header.vals [83, 101, 116, 45, 67, 111, 111, 107, 105, 101] = [[97], [98]] ∧
     v.header.vals [67, 111, 110, 116, 101, 110, 116, 45, 84, 121, 112, 101] = [[112]] ∧
     v.header.vals sServer = [] := by decide
+
+/-- test (non-vacuity of `JointAgree`): base path `/sp ace` (no encoded form of its own), `without /a/b`
+that matches only the decoded spelling of the request `/a%2Fb/x%2Fy`: the encoded path sent is
+`/sp%20ace/x/y`, which decodes to the path `/sp ace/x/y` -/
+def rawExampleUpstream : Upstream :=
+  { target := { scheme := sHttp, host := [98], path := [47, 115, 112, 32, 97, 99, 101], rawPath := [], opaq := [], rawQuery := [] },
+    without := [47, 97, 47, 98], upRules := [], downRules := [] }
+def rawExampleRequest : Request :=
+  { method := [71], url := { scheme := [], host := [], path := [47, 97, 47, 98, 47, 120, 47, 121],
+                             rawPath := [47, 97, 37, 50, 70, 98, 47, 120, 37, 50, 70, 121], opaq := [], rawQuery := [] },
+    host := [], remoteAddr := [], header := [], contentLength := 0, body := none }
+example : JointAgree rawExampleUpstream rawExampleRequest := by unfold JointAgree; decide
+example : (forward [] id rawExampleUpstream rawExampleRequest).url.rawPath =
+    [47, 115, 112, 37, 50, 48, 97, 99, 101, 47, 120, 47, 121] := by decide
 
 /-- test: a block with ONLY a downstream replacement (no plain rule): `Location: internal/x` is
 rewritten to `public/x` (Location = 76 111 99 97 116 105 111 110) -/
